@@ -96,6 +96,7 @@ func (l *listener) Accept() (net.Conn, error) {
 			c := l.backlog[0]
 			l.backlog = l.backlog[1:]
 			c.Accepted = true
+			rt.Progress()
 			c.BytesBeforeAccept = c.Server.Pending()
 			if c.BytesBeforeAccept > 0 {
 				rt.Reach("net.data-before-accept")
@@ -159,6 +160,7 @@ func Dial(network, address string) (net.Conn, error) {
 	rec := &ConnRecord{From: from, To: address, Client: a, Server: b}
 	n.Conns = append(n.Conns, rec)
 	l.backlog = append(l.backlog, rec)
+	rt.Progress()
 	wake(&l.waiters)
 	rt.LogEvent('D', uint64(id), 0)
 	rt.Tracef("dial %s -> %s connected (conn %d)", from, address, id)
